@@ -25,6 +25,7 @@ func getSortedKeys(srcMap map[string]interface{}) *sort.StringSlice {
 		(*sortKeys)[index] = key
 		index++
 	}
+	verifScrambleKeys(sortKeys)
 	if length > 1 {
 		sortKeys.Sort()
 	}
@@ -33,6 +34,7 @@ func getSortedKeys(srcMap map[string]interface{}) *sort.StringSlice {
 
 func putSortSlice(sortKeys *sort.StringSlice) {
 	if sortKeys != nil {
+		verifPoisonKeys(sortKeys)
 		sortSliceSyncPool.Put(sortKeys)
 	}
 }
@@ -42,6 +44,7 @@ func getContainer() *bufferContainer {
 }
 
 func putContainer(container *bufferContainer) {
+	verifPoisonContainer(container)
 	container.result = container.result[:0]
 	resultSyncPool.Put(container)
 }
